@@ -30,7 +30,9 @@ class ScriptReceiver(PyObj):
     def _deliver(self, ex, allow_timeout):
         # iteration barrier (C10): no upstream replica starts iteration k+1 before all have ended k
         low = min(self.ended)
-        avail = [i for i, b in enumerate(self.batches) if b and self.ended[i] <= low]
+        # (a replica that finished its last iteration may send Terminate while the others are still running)
+        avail = [i for i, b in enumerate(self.batches) if b and (self.ended[i] <= low or
+                                                                   all(e.variant == 'Terminate' for e in b[0]))]
         nopt = len(avail) + (1 if allow_timeout and self.max_timeouts > 0 else 0)
         if nopt == 0:
             raise Violation('Start waits for a batch although every upstream replica has terminated (deadlock)')
